@@ -226,7 +226,7 @@ def check_takes(case, spec, r, ck):
 
 
 def run_case(rng, tier, case):
-    base = gen.gen_mixed_portfolio(rng, kinds=('contract', 'contract', 'transport', 'storage', 'multi', 'orderbook', 'coarse', 'plant', 'storage_blocks', 'scaled'),
+    base = gen.gen_mixed_portfolio(rng, kinds=('contract', 'contract', 'transport', 'storage', 'multi', 'orderbook', 'coarse', 'plant', 'storage_blocks', 'scaled', 'chp_minload'),
                                    grid_kw={'steps': (5, 26)}, n_assets=(2, 5), n_nodes=(1, 3))
     spec = gen.strip_private(base)
     if rng.random() < 0.3:
